@@ -6,6 +6,8 @@ import sys
 
 VERIF = os.path.dirname(os.path.dirname(os.path.abspath(__file__)))
 ALL = [f'C{i:02d}' for i in range(1, 21)]
+# checks that are finished (silent on the unchanged tree, shown to detect seeded changes)
+READY = ['C01', 'C02', 'C06']
 
 ENGINES = [
     {'name': 'E1-enum', 'path': 'mc/build.py, mc/refmdp.py, mc/run.py',
@@ -23,7 +25,7 @@ def main():
     serves = {e['name']: [] for e in ENGINES}
     for pid in ALL:
         path = os.path.join(VERIF, 'props', pid + '.py')
-        if not os.path.exists(path):
+        if not os.path.exists(path) or pid not in READY:
             na.append({'property_id': pid, 'reason': 'check not implemented yet in this session (planned, see DESIGN.md section 3)'})
             continue
         mod = importlib.import_module('props.' + pid)
